@@ -2,12 +2,16 @@
 import gen_rules, patdiff
 from props.common_pat import blob_tagger, finding_reproduces, replay  # noqa: F401
 
+import enginetie
+
 CONSTS = ()
 ASSUMPTIONS = ["matched texts begin with `address::` (C07)"]
 FEATS = {"ops", "logic", "times", "not", "ops_logic", "deref"}
 
 
 def run(ctx, factor):
+    # engine tie T2: the model of the regex engine alone against the real engine (random ASTs of the emitted operator set)
+    enginetie.run(ctx, ctx.budget(500, 20000))
     g, rep = ctx.g, ctx.report
     rep.rule = ("random rules x listings, each run in all 2x2x2 combinations of return mode, search mode and address-only "
                 "flag on the real code; the equations of the property are checked on those outputs directly and every "
